@@ -1,4 +1,5 @@
 import RactorModel.Lemmas.TwoNode
+import RactorModel.Lemmas.NodeState
 
 /-!
 # C18 — duplicate connections converge on one and the same link
@@ -102,6 +103,66 @@ theorem agreement (o : Ordering) (ho : o ≠ .eq) (cs : List Conn) (hne : cs ≠
     · intro c hc
       exact hmin _ (List.mem_map.mpr ⟨c, hc, rfl⟩)
 
+
+/-- (oracle soundness) The run-time oracle `worldOk`, which `bin/check` evaluates on the
+answers the REAL `elect_sessions` gives for both nodes, holds of the model's answers for
+every two-node world — so an implementation that agrees with the model passes it, and an
+oracle failure on the implementation is a genuine violation of the agreement property. -/
+theorem worldOk_model (o : Ordering) (ho : o ≠ .eq) (cs : List Conn) (hne : cs ≠ [])
+    (hA : (cs.map (·.idA)).Nodup) (hB : (cs.map (·.idB)).Nodup) :
+    worldOk cs (electA o cs) (electB o cs) = true := by
+  obtain ⟨⟨d, hd⟩, hn, acc, hacc, h1, h2⟩ := agreement o ho cs hne hA hB
+  have hsub := survivors_sublist o cs
+  have haccs : acc ∈ cs := hsub.subset hacc
+  have hpair : ∀ c ∈ survivors o cs, ∀ c' ∈ survivors o cs,
+      c.aInit = c'.aInit ∧ nz c.nonce = nz c'.nonce := by
+    intro c hc c' hc'
+    exact ⟨by rw [hd c hc, hd c' hc'], hn c hc c' hc'⟩
+  unfold worldOk
+  cases hai : acc.aInit
+  · obtain ⟨eA, eB, _⟩ := h1 hai
+    have kA : cs.filter (fun c => (electA o cs).contains c.idA) = [acc] := by
+      rw [eA]; exact filter_key_singleton (·.idA) haccs hA
+    have kB : cs.filter (fun c => (electB o cs).contains c.idB) = survivors o cs := by
+      rw [eB]; exact filter_keys_of_sublist (·.idB) hsub hB
+    simp only [kA, kB]
+    simp only [eA, eB, hai]
+    simp only [Bool.and_eq_true, List.all_eq_true, List.any_eq_true, beq_iff_eq, List.mem_map,
+      List.mem_cons, List.mem_append, List.not_mem_nil, or_false, forall_eq, List.length_cons,
+      List.length_nil, List.contains_eq_mem, decide_eq_true_eq, Bool.false_eq_true, if_false]
+    refine ⟨⟨⟨⟨acc, haccs, rfl⟩, ?_⟩, ?_⟩, trivial, hacc⟩
+    · rintro i ⟨c, hc, rfl⟩; exact ⟨c, hsub.subset hc, rfl⟩
+    · intro c hc c' hc'
+      have hcT : c ∈ survivors o cs := by rcases hc with rfl | h; exact hacc; exact h
+      have hcT' : c' ∈ survivors o cs := by rcases hc' with rfl | h; exact hacc; exact h
+      exact hpair c hcT c' hcT'
+  · obtain ⟨eB, eA, _⟩ := h2 hai
+    have kB : cs.filter (fun c => (electB o cs).contains c.idB) = [acc] := by
+      rw [eB]; exact filter_key_singleton (·.idB) haccs hB
+    have kA : cs.filter (fun c => (electA o cs).contains c.idA) = survivors o cs := by
+      rw [eA]; exact filter_keys_of_sublist (·.idA) hsub hA
+    simp only [kA, kB]
+    simp only [eA, eB]
+    cases hT : survivors o cs with
+    | nil => rw [hT] at hacc; simp at hacc
+    | cons c rest =>
+      have hcT : c ∈ survivors o cs := by rw [hT]; simp
+      have hca : c.aInit = true := by rw [hd c hcT, ← hd acc hacc, hai]
+      rw [hT] at hacc hsub hpair
+      simp only [hca, if_true]
+      simp only [Bool.and_eq_true, List.all_eq_true, List.any_eq_true, beq_iff_eq, List.mem_map,
+        List.mem_cons, List.mem_append, List.not_mem_nil, or_false, forall_eq, List.length_cons,
+        List.length_nil, List.contains_eq_mem, decide_eq_true_eq]
+      have hmem : ∀ x : Conn, (x = c ∨ x ∈ rest) ∨ x = acc → x ∈ c :: rest := by
+        intro x hx
+        rcases hx with h | rfl
+        · exact List.mem_cons.mpr h
+        · exact hacc
+      refine ⟨⟨⟨?_, ⟨acc, haccs, rfl⟩⟩, ?_⟩, trivial, List.mem_cons.mp hacc⟩
+      · rintro i ⟨x, hx, rfl⟩; exact ⟨x, hsub.subset (List.mem_cons.mpr hx), rfl⟩
+      · intro x hx x' hx'
+        exact hpair x (hmem x hx) x' (hmem x' hx')
+
 /-- (same link) Whatever each node retains is a surviving connection: same direction — the
 dials of the node whose name sorts last when both directions exist — and the least
 non-legacy nonce of that direction. Stated by quantifiers over the connections only. -/
@@ -162,6 +223,81 @@ theorem survivor_stable (o : Ordering) (cs R : List Conn) (hR : R.Sublist cs) (c
       have := hdirR ⟨c', hc'R, hc't⟩ ⟨c, hcR, hcdir⟩
       simp [hc't] at this
 
+
+/-! ### `NodeServerState`: unauthenticated sessions cannot displace or veto -/
+
+/-- (non-interference, commit) Whatever name, direction and nonce an UNAUTHENTICATED session
+`u` claims, and wherever it sits in the session table, `commit_authenticated(id)` for
+another session elects the same survivor flag and closes the same losers as if `u` did not
+exist. -/
+theorem unauthenticated_cannot_influence_commit (thisName : String) (l1 l2 : List Session)
+    (u : Session) (id : Nat) (hu : u.auth = false) (hid : u.id ≠ id) :
+    ((NS.mk thisName (l1 ++ u :: l2)).commit id).map (fun r => (r.2.1, r.2.2)) =
+      ((NS.mk thisName (l1 ++ l2)).commit id).map (fun r => (r.2.1, r.2.2)) :=
+  commit_insert thisName l1 l2 u id hu hid
+
+/-- (non-interference, status reply) …nor the reply `check_candidate` gives to another session. -/
+theorem unauthenticated_cannot_influence_check (thisName : String) (l1 l2 : List Session)
+    (u : Session) (id : Nat) (hu : u.auth = false) (hid : u.id ≠ id) :
+    (NS.mk thisName (l1 ++ u :: l2)).checkCandidate id =
+      (NS.mk thisName (l1 ++ l2)).checkCandidate id :=
+  checkCandidate_insert thisName l1 l2 u id hu hid
+
+/-- (non-interference, ready) …nor whether another session is reported ready (`is_elected`). -/
+theorem unauthenticated_cannot_influence_ready (thisName : String) (l1 l2 : List Session)
+    (u : Session) (id : Nat) (hu : u.auth = false) (hid : u.id ≠ id) :
+    (NS.mk thisName (l1 ++ u :: l2)).isElected id = (NS.mk thisName (l1 ++ l2)).isElected id :=
+  isElected_insert thisName l1 l2 u id hu hid
+
+/-- (stability) An elected set re-elects itself: a second election closes nothing more. -/
+theorem elected_set_is_stable (o : Ordering) (cs : List Cand) :
+    elect o (pipeline o cs) = elect o cs := by
+  rw [elect_eq_pipeline, elect_eq_pipeline, pipeline_idem]
+
+/-- (one ready session per peer) After `commit_authenticated`, the authenticated sessions of
+that peer are exactly the elected set; on the accepting node (all of them server-side) at
+most ONE session of that peer is left authenticated — and only authenticated, elected
+sessions are ever reported ready or listed. -/
+theorem commit_leaves_elected_set (st : NS) (id : Nat) (s : Session) (peer : String)
+    (hnd : (st.sessions.map (·.id)).Nodup) (hf : st.find id = some s) (hp : s.peerName = some peer) :
+    ∃ st2 surv losers, st.commit id = some (st2, surv, losers) ∧
+      st2.candidatesFor peer true =
+        pipeline (nameOrd peer st.thisName) ((st.markAuth id).candidatesFor peer true) ∧
+      ((∀ c ∈ st2.candidatesFor peer true, c.isServer = true) →
+        (st2.candidatesFor peer true).length ≤ 1) := by
+  have hnd1 : ((st.markAuth id).sessions.map (·.id)).Nodup := by
+    have : (st.markAuth id).sessions.map (·.id) = st.sessions.map (·.id) := by
+      simp only [NS.markAuth, List.map_map]
+      apply List.map_congr_left
+      intro x _; simp only [Function.comp]; split <;> rfl
+    rw [this]; exact hnd
+  have hthis : (st.markAuth id).thisName = st.thisName := rfl
+  have key := deauth_candidates (st.markAuth id) peer (nameOrd peer st.thisName) hnd1
+  refine ⟨(st.markAuth id).deauth ((st.markAuth id).losersOf peer
+      (elect (nameOrd peer st.thisName) ((st.markAuth id).candidatesFor peer true))),
+    (elect (nameOrd peer st.thisName) ((st.markAuth id).candidatesFor peer true)).contains id,
+    (st.markAuth id).losersOf peer (elect (nameOrd peer st.thisName) ((st.markAuth id).candidatesFor peer true)),
+    ?_, key, ?_⟩
+  · unfold NS.commit; rw [hf]; simp only [hp]
+  · intro hall
+    rw [key] at hall ⊢
+    have hCnd : (((st.markAuth id).candidatesFor peer true).map (·.id)).Nodup := by
+      have : ((st.markAuth id).candidatesFor peer true).map (·.id) =
+          ((st.markAuth id).sessions.filter (fun s => s.peerName == some peer && (!true || s.auth))).map (·.id) := by
+        simp [NS.candidatesFor, Session.toCand, Function.comp_def]
+      rw [this]
+      exact ((List.filter_sublist).map _).nodup hnd1
+    exact pipeline_acceptor_unique _ _ hCnd hall
+
+/-- non-vacuity: a state with an authenticated server-side session, a second server-side
+duplicate committing, and an unauthenticated spoofer claiming the same name. -/
+def exampleNS : NS :=
+  { thisName := "b@h",
+    sessions := [⟨1, true, some "a@h", some 7, true⟩, ⟨2, true, some "a@h", some 3, false⟩,
+                 ⟨3, true, some "a@h", none, false⟩] }
+example : (exampleNS.commit 2).map (fun r => (r.2.1, r.2.2)) = some (true, [1]) := by decide
+example : ((exampleNS.commit 2).map (fun r => (r.1.candidatesFor "a@h" true).map (·.id))) = some [2] := by decide
+
 /-! ### Non-vacuity: concrete worlds that satisfy the hypotheses -/
 
 /-- Simultaneous dial plus a repeated legacy dial: 3 connections, names differ. -/
@@ -182,6 +318,12 @@ end C18
 #print axioms C18.elect_subset
 #print axioms C18.elect_nonempty
 #print axioms C18.agreement
+#print axioms C18.worldOk_model
 #print axioms C18.survivors_spec
 #print axioms C18.unique_survivor
 #print axioms C18.survivor_stable
+#print axioms C18.unauthenticated_cannot_influence_commit
+#print axioms C18.unauthenticated_cannot_influence_check
+#print axioms C18.unauthenticated_cannot_influence_ready
+#print axioms C18.elected_set_is_stable
+#print axioms C18.commit_leaves_elected_set
